@@ -75,7 +75,7 @@ func switchThreading(v *VM) *val.Val {
 		case OP_MOD_NUM_NUM:
 			rhs := v.Pop().Num().V
 			lhs := v.Pop().Num().V
-			v.Push(val.Num(float64(int64(lhs) % int64(rhs))))
+			v.Push(val.Num(val.NumMod(lhs, rhs)))
 
 		case OP_EXP_NUM_NUM:
 			rhs := v.Pop().Num().V
